@@ -62,3 +62,36 @@ Example c09_nonvacuous :
 Proof.
   repeat constructor; cbn; try (intros [H|[]]; discriminate); try (intros []); try lia.
 Qed.
+
+(* ---- THE STANDARD LIBRARY satisfies both hypotheses on functions (every regex oracle rxo, every tree t): a successful
+   call returns the graph it was given or — `node` only — that graph with one fresh node appended
+   (Proofs/StdlibHyps.v).  The two run theorems, instantiated: no hypothesis on functions is left. *)
+From TSG Require Import Model.Stdlib Proofs.StdlibHyps.
+
+Theorem stdlib_extends : forall rxo t, call_extends (stdlib_call rxo t).
+Proof. exact stdlib_call_extends. Qed.
+Theorem stdlib_extends_sorted : forall rxo t, call_extends_sorted (stdlib_call rxo t).
+Proof. exact stdlib_call_extends_sorted. Qed.
+(* ... in detail: the graph a stdlib call returns *)
+Theorem stdlib_call_result_graph : forall rxo t f g args v g',
+  stdlib_call rxo t f g args = Ok (v, g') -> g' = g \/ g' = g ++ [new_gnode].
+Proof. exact stdlib_call_graph. Qed.
+
+Theorem run_extends_strict_stdlib : forall {rx} rxo t fl cfg supplied budget (regexes : list rx) find fuel matches g0 s p,
+  graph_wf g0 ->
+  run_strict t fl cfg supplied budget regexes find (stdlib_call rxo t) fuel matches g0 = Ok (s, p) ->
+  graph_wf (s_graph s) /\ graph_ext g0 (s_graph s).
+Proof.
+  intros rx rxo t fl cfg supplied budget regexes find fuel matches g0 s p.
+  exact (@run_extends_strict rx t fl cfg supplied budget regexes find (stdlib_call rxo t) fuel matches g0 s p (stdlib_call_extends rxo t)).
+Qed.
+
+Theorem run_extends_lazy_stdlib : forall {rx} rxo t fl cfg supplied budget (regexes : list rx) find fuel matches g0 s p,
+  graph_sorted g0 ->
+  run_lazy t fl cfg supplied budget regexes find (stdlib_call rxo t) fuel matches g0 = Ok (s, p) ->
+  graph_sorted (l_graph s) /\ graph_ext g0 (l_graph s).
+Proof.
+  intros rx rxo t fl cfg supplied budget regexes find fuel matches g0 s p.
+  exact (@run_extends_lazy rx t fl cfg supplied budget regexes find (stdlib_call rxo t) fuel matches g0 s p (stdlib_call_extends_sorted rxo t)).
+Qed.
+
